@@ -427,6 +427,11 @@ def run(ctx):
                         "symmetry is not demanded there",
                         "Flocq's 4 standard-library axioms appear under the float theorems"]
     ctx.prove("Props/C06.v")
+    # tie 1 (translator): the kernels this property speaks about, regenerated from op_*.rs, ARE the model (Props/C06Gen.v);
+    # a difference is reported as broken and the correspondence runs below search for the concrete input
+    ctx.translate(steps=("kernels",))
+    ctx.prove("Props/C06Gen.v")
+
     symrun.run(ctx, kernels=["KCosine"])
     thorough = ctx.tier == "thorough"
     # thorough: every length that changes a loop trip count (the grid of the symbolic run), two placements
